@@ -495,6 +495,12 @@ impl WalRecord {
 pub struct Wal {
     path: PathBuf,
     file: Option<File>,
+    /// Offset of the `BeginTx` record of the transaction that is being appended and has not
+    /// been fsynced yet. If appending or syncing it fails, the log is cut back to this offset:
+    /// a half-written record would make everything appended later unreadable, and a complete
+    /// but unacknowledged transaction would reappear after reopen with ids the running process
+    /// has handed out again.
+    tx_start: Option<u64>,
 }
 
 impl Wal {
@@ -509,7 +515,17 @@ impl Wal {
         Ok(Self {
             path,
             file: Some(file),
+            tx_start: None,
         })
+    }
+
+    /// Best-effort removal of the unacknowledged transaction (or the half-written record)
+    /// at the end of the log after a failed append or fsync.
+    fn rollback_unacknowledged(&mut self, record_start: u64) {
+        let cut = self.tx_start.take().unwrap_or(record_start);
+        if let Some(file) = self.file.as_mut() {
+            let _ = file.set_len(cut);
+        }
     }
 
     /// Recovery step for the owner of the log (not for readers such as backup, which may look
@@ -545,6 +561,21 @@ impl Wal {
     }
 
     pub fn append(&mut self, record: &WalRecord) -> Result<u64> {
+        let start = match self.file.as_ref() {
+            Some(file) => file.metadata()?.len(),
+            None => return Err(Error::WalProtocol("wal file is closed")),
+        };
+        if matches!(record, WalRecord::BeginTx { .. }) {
+            self.tx_start = Some(start);
+        }
+        let res = self.append_frame(record);
+        if res.is_err() {
+            self.rollback_unacknowledged(start);
+        }
+        res
+    }
+
+    fn append_frame(&mut self, record: &WalRecord) -> Result<u64> {
         let Some(file) = self.file.as_mut() else {
             return Err(Error::WalProtocol("wal file is closed"));
         };
@@ -586,6 +617,20 @@ impl Wal {
     }
 
     pub fn fsync(&mut self) -> Result<()> {
+        let end = match self.file.as_ref() {
+            Some(file) => file.metadata()?.len(),
+            None => return Err(Error::WalProtocol("wal file is closed")),
+        };
+        let res = self.fsync_file();
+        if res.is_err() {
+            self.rollback_unacknowledged(end);
+        } else {
+            self.tx_start = None;
+        }
+        res
+    }
+
+    fn fsync_file(&mut self) -> Result<()> {
         let Some(file) = self.file.as_mut() else {
             return Err(Error::WalProtocol("wal file is closed"));
         };
